@@ -16,6 +16,7 @@ fn table() -> Vec<(&'static str, &'static str, RunFn, ReplayFn)> {
         ("C08", "exploration", props::c08::run, props::c08::replay),
         ("C09", "exploration", props::c09::run, props::c09::replay),
         ("C10", "exploration", props::c10::run, props::c10::replay),
+        ("C11", "exploration", props::c11::run, props::c11::replay),
         ("C13", "exploration", props::c13::run, props::c13::replay),
         ("C14", "exploration", props::c14::run, props::c14::replay),
         ("C18", "exploration", props::c18::run, props::c18::replay),
